@@ -102,6 +102,24 @@ def gen_triple(rng, tier="quick"):
     return {"desc": desc, "isa": isa, "lines": lines}
 
 
+def twin_of(rng, x):
+    y = copy.deepcopy(x)
+    us = y["desc"]["units"]
+    if not us:
+        return y
+    u = rng.choice(us)
+    kind = rng.choice(["acl", "acl", "width", "rlock", "wlock"])
+    if kind == "acl":
+        u["memoryAccess"] = [] if u.get("memoryAccess") else list(u["capabilities"])
+    elif kind == "width":
+        u["width"] = u["width"] + 1 if u["width"] < 3 else u["width"] - 1
+    elif kind == "rlock":
+        u["readLock"] = not u.get("readLock", False)
+    else:
+        u["writeLock"] = not u.get("writeLock", False)
+    return y
+
+
 def recase(rng, x):
     """re-case only NON-defining occurrences; returns (x', number of occurrences whose text changed)"""
     y = copy.deepcopy(x)
@@ -402,6 +420,16 @@ def run_case(case, tier="quick") -> dict:
     rng = core.case_rng(NAME, case)
     batch = 4
     xs = [gen_triple(rng, tier) for _ in range(batch)]
+    # x1 := a twin of x0 differing in ONE attribute of one unit (memory-access list, width or a lock): state cached across
+    # calls under a key that ignores that attribute makes the twin's result depend on which of the two ran first
+    xs[1] = twin_of(rng, xs[0])
+    # x3 := a raw description from the loader component's generators (often with several structural defects at once):
+    # which defect is reported must not depend on the hash seed or on earlier calls
+    if rng.random() < 0.75:
+        from . import comp_loader
+        fam = rng.choice(["random", "partial", "layered", "deadbranch", "forkjoin", "random"])
+        desc, _ = comp_loader.gen_desc(rng, fam)
+        xs[3] = {"desc": desc, "isa": [], "lines": []}
     for i, x in enumerate(xs):
         x["seed"] = f"{core.base_seed()}:{case}:{i}"
     # the CLI subprocess is slow: one per batch in the quick tier, all in the thorough tier
